@@ -76,6 +76,22 @@ def liveKey (live : List LiveT) : String :=
 
 def resToMatch (r : Res) : Option Match := r.map (fun (i, ps) => ⟨i.template, i.expanded, i.data, ps⟩)
 
+/-- an unescaped `(` while a brace is open -/
+def groupInBraces : Bytes → Bool :=
+  let rec go : Bytes → Nat → Bool
+    | [], _ => false
+    | 92 :: _ :: r, d => go r d
+    | 123 :: r, d => go r (d + 1)
+    | 125 :: r, d => go r (d - 1)
+    | 40 :: r, d => if d > 0 then true else go r d
+    | _ :: r, d => go r d
+  fun t => go t 0
+
+def endsInSpace (t : Bytes) : Bool :=
+  match t.getLast? with
+  | some b => b == 32 || b == 9 || b == 10 || b == 13 || b == 11 || b == 12 || b == 0xA0 || b == 0x83
+  | none => false
+
 /-- parse `match <t> <exp|.> <data> n=v…` -/
 def parseMatchLine (l : String) : Option (Option Match) :=
   match l.splitOn " " with
@@ -244,7 +260,15 @@ def judgeStep (s : JS) (models : List (Nat × Router)) (idx : Nat) (op : Op) (im
         let s := templateErrOracle s idx t implCore
         if implCore == "ok" then
           match specParse t with
-          | some ts => s.set r { j with live := j.live ++ [⟨t, d, ts⟩], epoch := j.epoch + 1, lastMut := some (ts.map (·.2)) }
+          | some ts =>
+            -- shape cells of the accepted templates (generator coverage, printed into the evidence)
+            let s := if groupInBraces t then s.bump "shape.group-inside-braces" else s
+            let s := if endsInSpace t then s.bump "shape.ends-in-white-space" else s
+            let s := if (ts.map (·.2)).eraseDups.length < ts.length then s.bump "shape.coinciding-expansions" else s
+            let s := if ts.length > 1 then s.bump "shape.grouped" else s
+            let s := if t.any (· ≥ 128) then s.bump "shape.multibyte" else s
+            let s := if t.contains 92 then s.bump "shape.escaped" else s
+            s.set r { j with live := j.live ++ [⟨t, d, ts⟩], epoch := j.epoch + 1, lastMut := some (ts.map (·.2)) }
           | none => s.emit s!"O {idx} C11 insert accepted a template the grammar rejects"
         else s
     | .delete r t =>
